@@ -35,7 +35,7 @@ ALL_FEATURES = {
     "array_pop", "early_return", "shadowing", "else_if", "assert_stmt", "array_pass", "struct_pass",
     "string_escapes", "effectful_logic", "continue_in_for", "print_enum", "min_max", "array_slice",
     "array_struct", "float_arith", "deep_expr", "array_alias", "str_substring", "char_at", "global_shadow",
-    "unused_results", "long_strings", "self_compare", "tuple_pass", "effectful_args", "shadow_type_change", "out_of_scope_reference", "array_float", "struct_array_field", "fn_returning_composite", "print_float", "loop_nest",
+    "unused_results", "long_strings", "self_compare", "tuple_pass", "effectful_args", "shadow_type_change", "out_of_scope_reference", "array_float", "struct_array_field", "fn_returning_composite", "print_float", "loop_nest", "global_init_expr", "guard_idiom",
 }
 
 
@@ -1255,6 +1255,32 @@ def gen_loop_nest(g, sc, cx, out):
     g.use("loop_nest_%s_in_%s_%s" % (inner_kind, okind, ex))
 
 
+def gen_guard_idiom(g, sc, cx, out):
+    """Index guards that rely on short-circuit evaluation: the loop runs one past the end of the array and the element
+    is only read behind `(or (>= i n) ..)` / `(and (< i n) ..)`."""
+    n = g.i(1, 4)
+    xs = g.fresh()
+    vals = [g.i(-3, 9) for _ in range(n)]
+    out.append(("let", xs, t_array("int"), ("arr", "int", [("int", v) for v in vals]), False))
+    sc.vars[xs] = (t_array("int"), False, {"minlen": n})
+    i = g.fresh("w")
+    out.append(("let", i, "int", ("int", 0), True))
+    sc.vars[i] = ("int", True, {})
+    k = g.pick(vals + [100])
+    at = ("bi", "at", [("var", xs), ("var", i)])
+    body = []
+    forms = g.i(0, 2)
+    if forms in (0, 2):
+        body.append(("if", ("bin", "or", ("bin", ">=", ("var", i), ("int", n), g.style()), ("bin", "==", at, ("int", k), g.style()), g.style()),
+                     [("println", ("var", i))], None))
+    if forms in (1, 2):
+        body.append(("if", ("bin", "and", ("bin", "<", ("var", i), ("int", n), g.style()), ("bin", ">", at, ("int", k), g.style()), g.style()),
+                     [("println", at)], None))
+    body.append(("set", i, ("bin", "+", ("var", i), ("int", 1), g.style())))
+    out.append(("while", ("bin", "<=", ("var", i), ("int", n), g.style()), body))
+    g.use("guard_idiom")
+
+
 def gen_match(g, sc, cx, out, budget):
     us = [(n, v) for n, v in sc.all_vars().items() if isinstance(v[0], tuple) and v[0][0] == "union"]
     if not us:
@@ -1285,8 +1311,13 @@ def gen_block(g, sc, cx, budget):
     out = []
     n = g.i(1, max(1, min(6, budget)))
     for _ in range(n):
-        k = g.i(0, 24)
-        if k == 24:
+        k = g.i(0, 25)
+        if k == 25:
+            if g.has("guard_idiom") and g.has("arrays") and g.has("while") and cx.depth < 2 and cx.loop_depth < 1:
+                gen_guard_idiom(g, sc, cx, out)
+            else:
+                gen_let(g, sc, cx, out)
+        elif k == 24:
             if g.has("array_slice") and g.has("arrays") and g.has("array_mut"):
                 gen_slice_idiom(g, sc, cx, out)
             else:
@@ -1423,6 +1454,21 @@ def gen_program(g):
                 e = ("bool", g.b())
             else:
                 e = lit_str(g)
+            if g.has("global_init_expr") and g.chance(1, 3):
+                # initialisers that need run-time evaluation: builtins that the code generators expand with temporaries,
+                # arithmetic over earlier globals, string concatenation
+                prev = [(pn, pt) for (pn, pt, _pe) in g.globals if pt == t]
+                ref = ("var", g.pick(prev)[0]) if prev and g.b() else e
+                if t == "int":
+                    e = g.pick([("bi", "max", [ref, ("int", 7)]), ("bi", "min", [ref, ("int", 3)]), ("bi", "abs", [("int", -5)]),
+                                ("bin", "+", ref, ("int", 2), "p"), ("bin", "*", ref, ("int", 3), "p")])
+                elif t == "string":
+                    e = ("bin", "+", ref, ("str", b"ab"), "p")
+                elif t == "bool":
+                    e = ("un", "not", ref, "p") if prev else e
+                elif t == "float":
+                    e = ("bin", "*", ref, ("float", 2.5), "p")
+                g.use("global_init_expr")
             n = g.fresh("g")
             g.globals.append((n, t, e))
             gscope.vars[n] = (t, False, {})
